@@ -966,3 +966,45 @@ def r_errors_append_only(cx, fx):
                 cx.ob(rule, "%s|&mut errors" % fname.replace("Lexer::", ""), False, F.file_line(F.site(node)),
                       "`&mut self.errors` escapes in %s: the rule cannot follow what is done to the diagnostics list" % fname)
     cx.count(rule, "append_sites", appends)
+
+
+# ---------------------------------------------------------------------------
+# R-STR-INDEX (C01): no unchecked str slicing outside the audited sites
+
+def r_str_index(cx, fx):
+    """`&text[a..b]` on a `str` panics if a bound is not on a char boundary or out of range - for a lexer fed arbitrary
+    UTF-8 that is an input-dependent panic.  The crate slices with the checked `.get(range)`; the few unchecked sites are
+    an audited table (function + range type, with the reason the bounds are boundaries).  Type-resolved: the indexed
+    expression's type is `str` / `String`, whatever the local is called."""
+    import json as _json
+    import os
+    rule = "R-STR-INDEX"
+    cx.rules_run.append(rule)
+    with open(os.path.join(os.path.dirname(os.path.dirname(os.path.abspath(__file__))), "tables", "str_index_sites.json")) as f:
+        audited = _json.load(f)["sites"]
+    n = checked = 0
+    used = set()
+    for fname, b in fx.bodies.items():
+        if fx.is_derive(fname) or b["kind"] not in ("Fn", "AssocFn"):
+            continue
+        for x, _ in F.walk(b["hir"]):
+            k = x.get("k")
+            if k == "MethodCall" and x.get("name") in ("get", "get_mut") and "str" in (F.strip(x["recv"]).get("ty") or ""):
+                checked += 1
+            if k != "Index":
+                continue
+            bt = F.strip(x["base"]).get("ty") or ""
+            it = F.strip(x["idx"]).get("ty") or ""
+            if not ("str" in bt or "String" in bt) or "Range" not in it:
+                continue
+            n += 1
+            rk = it.split("::")[-1].split("<")[0]
+            key = "%s|%s" % (fname, rk)
+            ok = key in audited
+            used.add(key)
+            cx.ob(rule, key, ok, F.file_line(F.site(x)),
+                  "audited: " + audited[key] if ok else
+                  "%s slices a str with `[..]` (%s): this panics when a bound is not a char boundary or past the end, which "
+                  "depends on the input text; the crate's checked form is `.get(range)`" % (fname, rk))
+    cx.count(rule, "checked_slices", checked)
+    cx.count(rule, "unchecked_slices", n)
